@@ -12,11 +12,14 @@ CHECKS = {
         "insertion order) to the dict operation at up(to_unicode(key)); the representation invariant (only upper-case keys) is preserved on "
         "every exit, so the statement holds after every operation sequence by induction, with no bound. __eq__ is proved total, reflexive "
         "by identity, False for non-mappings, equal to dict equality of the two contents (insertion order plays no role) and to compare "
-        "a plain mapping by its upper-cased content. The remaining operations (constructors, copy, popitem, merge operators, canonical "
-        "order) are a labelled bounded stand-in.",
+        "a plain mapping by its upper-cased content. The canonical key ordering is proved on the real body of canonsort_keys for all key "
+        "lists and declared orders (list-algebra VCs: permutation, priority names in declared order then the others alphabetically, no "
+        "KeyError), its three one-line callers by statement shape. The remaining operations (constructors, copy, popitem, merge "
+        "operators) are a labelled bounded stand-in.",
    note="Trusted: OrderedDict primitive contracts on raw keys (cross-checked against CPython each run), str.upper idempotent "
-        "(checked on all code points each run), the pyvc executor and z3. Bounded only: constructors/copy/popitem/|,|=/fromkeys/==/sorted_keys.",
-   technique="contract-based deductive verification: AST->z3 VCs over a map view (pyvc), loop rule for update; bounded stand-in for C-level ops"),
+        "(checked on all code points each run), sorted() as a stable ascending permutation, the pyvc executor and z3. Bounded only: "
+        "constructors/copy/popitem/|,|=/fromkeys.",
+   technique="contract-based deductive verification: AST->z3 VCs over a map view (pyvc), loop rule for update, list-algebra VCs for the canonical ordering; bounded stand-in for C-level ops"),
  "C16": dict(
    category="proof", design_ref="DESIGN.md section 8 C16",
    text="The real descriptor closures (create_single_property p_get/p_set/p_del for DTSTART, DTEND, DUE), _get/_set/_del_duration and the "
@@ -128,15 +131,17 @@ CHECKS = {
  "C10": dict(
    category="proof", design_ref="DESIGN.md section 8 C10",
    text="Order: property_items is proved (pyvc, recursive contract) to emit BEGIN, the values in sorted_keys() / keys() order with list "
-        "entries and subcomponents in insertion order, END of the same name, for both values of `sorted`; canonsort_keys / sorted_keys / "
-        "Parameters.to_ical / content_lines are matched against their canonical shapes, which with the assumed contract of sorted() makes "
-        "the output a function of the key set. Purity: a static modifies-nothing analysis of every function reachable from "
+        "entries and subcomponents in insertion order, END of the same name, for both values of `sorted` (a method called on self is checked "
+        "with the implementation of every overriding subclass of the repository); canonsort_keys is proved (list-algebra VCs on the real body, "
+        "all inputs) to return a permutation of the keys that does not depend on their input order; sorted_keys / Parameters.to_ical / "
+        "content_lines are matched against their canonical shapes, which with the assumed contract of sorted() makes the output a function "
+        "of the key set. Purity: a static modifies-nothing analysis of every function reachable from "
         "Component.to_ical (52 functions incl. every to_ical) shows no write to, and no mutating call on, anything reachable from self; "
         "determinism: none of them calls hash/id/random/time or iterates a set unsorted. Permuted insertion histories, double "
         "serialisation with state snapshots and runs under different PYTHONHASHSEED are a labelled bounded stand-in.",
    note="Trusted: sorted() contract, dict insertion order, the conservative static frame analysis and its name-based call graph, the shape "
         "rules (a function that leaves its shape is undecided, never proved). Balanced nesting assumes no property is named BEGIN/END.",
-   technique="contract-based deductive verification: pyvc order obligations + static frame (modifies {}) and determinism analysis over the real AST; bounded stand-in"),
+   technique="contract-based deductive verification: pyvc order obligations, list-algebra VCs for canonsort_keys, static frame (modifies {}) and determinism analysis over the real AST; bounded stand-in"),
  "C03": dict(
    category="proof", design_ref="DESIGN.md section 8 C03",
    text="vDate, vDatetime (naive and UTC), vTime, vUTCOffset and vDuration to_ical/from_ical are symbolically executed with strings of "
@@ -152,8 +157,8 @@ CHECKS = {
    technique="contract-based deductive verification: AST->z3 VCs (pyvc) over shaped strings and calendar fields; fin for finite types; bounded stand-in"),
  "C19": dict(
    category="other", design_ref="DESIGN.md section 8 C19", engine="fstc",
-   text="Static/finite obligations on the real source: canonical_order starts RSCALE, FREQ and keeps the RFC part order, the types table "
-        "maps every RFC part to its value class, to_ical / from_ical / parse_type have the join / split shapes; the text-structure lemma "
+   text="Static/finite obligations on the real source: canonical_order (computed from the real class body, also when derived from another "
+        "table) starts RSCALE, FREQ and keeps the RFC part order, the types table maps every RFC part to its value class, to_ical / from_ical / parse_type have the join / split shapes; the text-structure lemma "
         "(split(';'), split('='), split(',') invert the joins for separator-free atoms, parts without exactly one '=' are skipped, a "
         "trailing ';' is tolerated) is decided by fstc for ALL strings; every finite part value (weekdays with ordinals, frequencies, "
         "months incl. leap, SKIP, ints -366..366) is enumerated: separator-free and stable. The per-part dispatch inside to_ical/from_ical, "
